@@ -58,7 +58,7 @@ func (m *lru) keys() []string {
 func propLRU(t *rapid.T) {
 	ev.Case()
 	capacity := rapid.IntRange(0, 5).Draw(t, "cap")
-	big := rapid.IntRange(0, 24).Draw(t, "bigCache") == 0
+	big := rapid.IntRange(0, 99).Draw(t, "bigCache") == 0
 	if big {
 		// capacities of real deployments (the default is 1000): filled to the brim first, so that the steps below overflow it
 		capacity = rapid.SampledFrom([]int{255, 256, 257, 300, 512, 1000}).Draw(t, "bigCap")
